@@ -62,6 +62,7 @@ type Contract struct {
 	Inline        bool
 	Deterministic bool // also check syntactically that the function's call tree cannot depend on anything but its arguments
 	Prefix        bool // verify only the statements before the first one outside the subset (orchestration functions)
+	Entry         bool // command entry closures (cobra RunE literals): package-level variables are assignable state, top-level `defer` statements run at every later return
 	Spawns        bool // fan-out functions: `go` statements are skipped (arguments still evaluated), channels made by the call are a family with per-handle ghost logs
 	Where         string
 }
@@ -240,6 +241,8 @@ func (cs *ContractSet) parseFile(path string, pkgName string) error {
 					cur.Prefix = true
 				case o == "spawns":
 					cur.Spawns = true
+				case o == "entry":
+					cur.Entry = true
 				case o == "deterministic":
 					cur.Deterministic = true
 				case strings.HasPrefix(o, "props="):
